@@ -190,7 +190,7 @@ class Ctx:
             all_thms += thms
             ax = {}
             if of not in missing and not bad_kw:
-                ax = print_assumptions(path)
+                ax = print_assumptions(path, deps=files)
             axioms.update({t: ax[t] for t in thms if t in ax})
             undone += [t for t in thms if t not in ax]
         self.cov['theorems'] = all_thms
@@ -440,16 +440,58 @@ def forbidden_scan(files=None):
     return hits
 
 
-def print_assumptions(propfile):
+def print_assumptions(propfile, deps=()):
     """Re-compile the property file and collect `Print Assumptions` output:
-    returns {theorem: [axioms]} for each theorem followed by Print Assumptions."""
+    returns {theorem: [axioms]} for each theorem followed by Print Assumptions.
+    The printed output is cached next to the build (coq/.pa_cache/) under a key made of the file's text and the
+    identity (mtime, size) of the .vo of every file it may depend on, so it is re-collected whenever the file or
+    anything below it was re-compiled; VERIF_NO_PA_CACHE=1 disables the cache."""
     rel = propfile.relative_to(COQ)
-    p = subprocess.run(['timeout', '900', 'coqc', '-Q', '.', 'PV', str(rel)], cwd=COQ,
-                       capture_output=True, text=True)
-    if p.returncode != 0:
-        return {}
-    names = re.findall(r'^\s*Print Assumptions\s+(\w+)\s*\.', propfile.read_text(), re.M)
-    out = p.stdout
+    text = propfile.read_text()
+    keysrc = text
+    # only the files this one really depends on (transitively, through its Require lines)
+    def _reqs(path):
+        try:
+            return ' '.join(_REQ.findall(path.read_text()))
+        except OSError:
+            return ''
+    closure, todo = [], [propfile]
+    while todo:
+        cur = todo.pop()
+        req = _reqs(cur)
+        for g in deps:
+            gp = COQ / g
+            if gp != propfile and g not in closure and re.search(r'(?<![\w])' + re.escape(Path(g).stem) + r'(?![\w])', req):
+                closure.append(g)
+                todo.append(gp)
+    for g in sorted(closure):
+        gvo = (COQ / g).with_suffix('.vo')
+        if (COQ / g) != propfile:
+            st = gvo.stat() if gvo.exists() else None
+            keysrc += f'|{g}:{st.st_mtime_ns if st else 0}:{st.st_size if st else 0}'
+    key = hashlib.sha1(keysrc.encode()).hexdigest()
+    cdir = COQ / '.pa_cache'
+    cfile = cdir / (str(rel).replace('/', '_') + '.json')
+    out = None
+    if os.environ.get('VERIF_NO_PA_CACHE') != '1' and cfile.exists() and propfile.with_suffix('.vo').exists():
+        try:
+            c = json.loads(cfile.read_text())
+            if c.get('key') == key:
+                out = c['out']
+        except Exception:
+            out = None
+    if out is None:
+        p = subprocess.run(['timeout', '900', 'coqc', '-Q', '.', 'PV', str(rel)], cwd=COQ,
+                           capture_output=True, text=True)
+        if p.returncode != 0:
+            return {}
+        out = p.stdout
+        try:
+            cdir.mkdir(exist_ok=True)
+            cfile.write_text(json.dumps({'key': key, 'out': out}))
+        except Exception:
+            pass
+    names = re.findall(r'^\s*Print Assumptions\s+(\w+)\s*\.', text, re.M)
     # Outputs come in order; each is either "Closed under the global context"
     # or "Axioms:\n name : type ..." blocks.
     blocks = re.split(r'(?m)^(?=Closed under the global context|Axioms:)', out)
